@@ -13,7 +13,7 @@ package register
 //@   ensures[C09] stamp_survives: each Fire("After", EventRegister, _, _, _) => !(after Sess.DelAll(_)) && !(after Sess.Del("last_action"))
 //@   -- C09: an announcement that failed (a handler in the chain errored, so later ones - the
 //@   -- stamp - did not run) is an error outcome, not a completed login
-//@   ensures[C09] announcement_error_outcome: each Fire("After", EventRegister, _, _, _) -> (_, ?fe) => fe != nil ==>
+//@   ensures[C09,C18] announcement_error_outcome: each Fire("After", EventRegister, _, _, _) -> (_, ?fe) => fe != nil ==>
 //@       (result == fe && !emits Redirect(_) && !emits Respond(_, _, _))
 //@   ensures[C17] no_secret_leak: secrets_clean
 //@   invariant loop#1 preserve_only: true
